@@ -1257,6 +1257,79 @@ pub fn assign_prot_bytes(v: &mut MVal) {
     }
 }
 
+/// Forget all retained protected bytes (what a caller gets by rebuilding the value in memory).
+pub fn clear_prot_bytes(v: &mut MVal) {
+    fn p(p: &mut MProt) {
+        p.bytes = None;
+        h(&mut p.header);
+    }
+    fn h(h: &mut MHeader) {
+        for s in h.csigs.iter_mut() {
+            p(&mut s.prot);
+            h2(&mut s.unprot);
+        }
+    }
+    fn h2(x: &mut MHeader) {
+        h(x)
+    }
+    fn r(x: &mut MRecipient) {
+        p(&mut x.prot);
+        h(&mut x.unprot);
+        for y in x.recipients.iter_mut() {
+            r(y);
+        }
+    }
+    match v {
+        MVal::Header(x) => h(x),
+        MVal::ProtMap(x) => {
+            x.bytes = None;
+            h(&mut x.header)
+        }
+        MVal::Signature(s) => {
+            p(&mut s.prot);
+            h(&mut s.unprot)
+        }
+        MVal::Sign(s) => {
+            p(&mut s.prot);
+            h(&mut s.unprot);
+            for x in s.sigs.iter_mut() {
+                p(&mut x.prot);
+                h(&mut x.unprot);
+            }
+        }
+        MVal::Sign1(s) => {
+            p(&mut s.prot);
+            h(&mut s.unprot)
+        }
+        MVal::Mac(s) => {
+            p(&mut s.prot);
+            h(&mut s.unprot);
+            for x in s.recipients.iter_mut() {
+                r(x);
+            }
+        }
+        MVal::Mac0(s) => {
+            p(&mut s.prot);
+            h(&mut s.unprot)
+        }
+        MVal::Encrypt(s) => {
+            p(&mut s.prot);
+            h(&mut s.unprot);
+            for x in s.recipients.iter_mut() {
+                r(x);
+            }
+        }
+        MVal::Encrypt0(s) => {
+            p(&mut s.prot);
+            h(&mut s.unprot)
+        }
+        MVal::Recipient(x) => r(x),
+        MVal::SuppPub(s) => p(&mut s.prot),
+        MVal::Kdf(k) => p(&mut k.supp.prot),
+        _ => {}
+    }
+}
+
 /// All protected-header positions of a value as (path, retained bytes).
 pub fn prot_positions(v: &MVal) -> Vec<(String, Option<Vec<u8>>)> {
     let mut out = Vec::new();
